@@ -31,6 +31,11 @@ pub struct RefResult {
     /// cumulative bytes consumed after each symbol (incl. preamble)
     pub cum_bytes: Vec<usize>,
     pub final_cs: CS,
+    /// code == 0 right after the preamble / after each symbol
+    pub z0: bool,
+    pub zs: Vec<bool>,
+    /// for End::BadDistance: (fails already before the symbol is fully decoded, bytes consumed by the failing symbol)
+    pub fail: Option<(bool, u32)>,
 }
 
 struct D<'a> {
@@ -110,6 +115,9 @@ pub fn decode(
     let mut syms = Vec::new();
     let mut costs = Vec::new();
     let mut cum = Vec::new();
+    let mut zs = Vec::new();
+    let z0 = d.rc.code == 0;
+    let mut fail = None;
     let end;
     loop {
         if let Some(sz) = size {
@@ -132,6 +140,7 @@ pub fn decode(
             if cs.st >= 7 {
                 if cs.rep[0] + 1 > cs.out.len() as u64 || cs.rep[0] + 1 > dict {
                     end = End::BadDistance;
+                    fail = Some((true, (d.rc.pos - pos0) as u32));
                     break;
                 }
                 let mut mb = cs.out[cs.out.len() - 1 - cs.rep[0] as usize] as u32;
@@ -189,6 +198,7 @@ pub fn decode(
                 out: 0,
             });
             cum.push(d.rc.pos);
+            zs.push(d.rc.code == 0);
             end = End::Eos {
                 clean: d.rc.code == 0 && d.rc.pos >= payload.len(),
             };
@@ -205,6 +215,7 @@ pub fn decode(
         };
         if !dist_ok {
             end = End::BadDistance;
+            fail = Some((false, (d.rc.pos - pos0) as u32));
             break;
         }
         cs.apply(&sym);
@@ -214,6 +225,7 @@ pub fn decode(
             out: (cs.out.len() - out0) as u32,
         });
         cum.push(d.rc.pos);
+        zs.push(d.rc.code == 0);
     }
     let _ = pos_slot;
     Some(RefResult {
@@ -224,6 +236,9 @@ pub fn decode(
         consumed: d.rc.pos.min(payload.len()),
         cum_bytes: cum,
         final_cs: cs,
+        z0,
+        zs,
+        fail,
     })
 }
 
